@@ -38,8 +38,11 @@ CLAIMED = {
         text=("Exact clauses, with cern_polygamma replaced by its contract (closed forms at integer / half-integer arguments): (1) the leading-order sum rules hold EXACTLY for nf 3-6 -- "
               "unpolarised momentum at N = 2 and quark number at N = 1, time-like momentum in the fragmentation convention (rows weighted with the second moments 2 nf and 1) and quark number, "
               "polarised axial charge, gamma_qg(1) = 0 and gamma_gg(1) = -beta_0, QED: gluon + photon + Sigma rows of every column vanish at N = 2 at orders (1,0) and (0,1), valence / minus "
-              "number at N = 1; (2) FHMRUVV N3LO: for SYMBOLIC N the central variation equals the mean of the down and up variations for gg, gq, qg, ps, ns+, ns-, nsv and the assembled singlet block."),
-        note=COMMON_NOTE + "Not claimed: sum rules beyond leading order and of the N3LO parametrisations (they hold within parametrisation accuracy only; the code documents no tolerance) and N -> 1 limits of removable poles.",
+              "number at N = 1; (2) FHMRUVV N3LO: for SYMBOLIC N the central variation equals the mean of the down and up variations for gg, gq, qg, ps, ns+, ns-, nsv and the assembled singlet block; "
+              "(3) beyond leading order (unpolarised space-like orders 2-4 with both N3LO parametrisations and every variation index, time-like and polarised orders 2-3, every nf): the same sums formed "
+              "from the exact terms the real code produces at N = 2 / N = 1 (harmonic sums in closed form, 40-digit evaluation) vanish within 1e-5 of the largest entry at NLO and 2e-3 at NNLO / N3LO "
+              "(the accuracy documented for the parametrisations) -- a finite domain, enumerated completely in the thorough tier."),
+        note=COMMON_NOTE + "Entries with a removable pole at N = 1 (valence sea parts) are evaluated 1e-12 away from it, not as limits. QED-extended rules beyond (1,1), (0,2) follow from the embedding C30.",
         technique="contract-based deductive verification: symbolic / exact execution over the polygamma contract + exact normal form",
         design_ref="DESIGN.md section 2, C25",
     ),
